@@ -39,7 +39,11 @@ type C15Obs struct {
 type c15World struct {
 	doc     *openapi3.T
 	routers []routers.Router
+	pat     *openapi3.Schema // a shared pattern schema, first compiled with the default engine (as T.Validate does)
 }
+
+// a caller-supplied regex engine: case-insensitive
+func c15CI(expr string) (openapi3.RegexMatcher, error) { return regexp.Compile("(?i)" + expr) }
 
 func c15Load(c *C10Case) *c15World {
 	data, _ := json.Marshal(c.Doc)
@@ -47,7 +51,8 @@ func c15Load(c *C10Case) *c15World {
 	if err != nil || doc.Validate(context.Background()) != nil {
 		return nil
 	}
-	w := &c15World{doc: doc}
+	w := &c15World{doc: doc, pat: &openapi3.Schema{Type: &openapi3.Types{"string"}, Pattern: "^[a-z]+$"}}
+	_ = w.pat.Validate(context.Background())
 	if r, e := gorillamux.NewRouter(doc); e == nil {
 		w.routers = append(w.routers, r)
 	}
@@ -139,6 +144,24 @@ func c15Run(c *C10Case, w *c15World, rot int) []string {
 			}
 		}
 	}
+	// caller-supplied regex engines: every call gets the verdict of its own engine (known in advance)
+	for ei, eng := range []string{"default", "ci", "default", "ci"} {
+		for _, val := range []string{"ABC", "abc"} {
+			var opts []openapi3.SchemaValidationOption
+			if eng == "ci" {
+				opts = append(opts, openapi3.SetSchemaRegexCompiler(c15CI))
+			}
+			got := w.pat.VisitJSON(val, opts...) == nil
+			v := "ok"
+			if !got {
+				v = "err"
+			}
+			if got != (eng == "ci" || val == "abc") {
+				v += " WRONG-FOR-THIS-ENGINE"
+			}
+			out = append(out, fmt.Sprintf("engine %d %s %s %s", ei, eng, val, v))
+		}
+	}
 	// schema generation for one Go type
 	ref, err := openapi3gen.NewSchemaRefForValue(&c15Gen{}, openapi3.Schemas{})
 	if err != nil || ref == nil {
@@ -176,6 +199,11 @@ func c15One(c *C10Case) C15Obs {
 	// (a fresh load may route differently: the legacy router's trie depends on map iteration order)
 	want := c15Run(c, shared, 0)
 	o.Ops = len(want)
+	for _, x := range want {
+		if strings.HasSuffix(x, "WRONG-FOR-THIS-ENGINE") {
+			o.Differs = append(o.Differs, x)
+		}
+	}
 	for g := 0; g < G; g++ {
 		if len(got[g]) != len(want) {
 			o.Differs = append(o.Differs, "count")
@@ -271,7 +299,7 @@ func init() {
 			}
 		}
 		meta := &Meta{Property: "C15", Seed: seed, Histogram: map[string]int{}, Shard: 1000,
-			Rule: "the valid documents and hostile traffic of C10; per document every operation (FindRoute + ValidateRequest + ValidateResponse through both routers, VisitJSON of 4 values against every component schema in multi-error mode, schema generation for one recursive Go type) is run once sequentially on a fresh load, then from 8 goroutines in 8 rotations over one shared document under the Go race detector; verdict classes compared, race reports read from the detector log; non-trivial = the document is valid; distinct by JSON of the case"}
+			Rule: "the valid documents and hostile traffic of C10; per document every operation (FindRoute + ValidateRequest + ValidateResponse through both routers, VisitJSON of 4 values against every component schema in multi-error mode, VisitJSON of a shared pattern schema under the default and under a caller-supplied case-insensitive regex engine - each call must get the verdict of its own engine -, schema generation for one recursive Go type) is run once sequentially on a fresh load, then from 8 goroutines in 8 rotations over one shared document under the Go race detector; verdict classes compared, race reports read from the detector log; non-trivial = the document is valid; distinct by JSON of the case"}
 		self, _ := os.Executable()
 		raceBin := filepath.Join(filepath.Dir(self), "harness_race")
 		if _, err := os.Stat(raceBin); err != nil {
